@@ -16,7 +16,6 @@ CHECK = {
  'parts': [
    {'name': 'sequential', 'pkg': 'rest', 'race': False, 'run': '^TestVerif_C03_Sequential$', 'timeout_q': 900, 'timeout_t': 5400, 'env': _ENV},
    {'name': 'systematic', 'pkg': 'rest', 'race': False, 'run': '^TestVerif_C03_Systematic$', 'timeout_q': 600, 'timeout_t': 3000, 'env': _ENV},
-   {'name': 'fault', 'pkg': 'rest', 'race': False, 'run': '^TestVerif_C03_Fault$', 'timeout_q': 600, 'timeout_t': 3000, 'env': _ENV},
    {'name': 'concurrent', 'pkg': 'rest', 'race': True, 'run': '^TestVerif_C03_Concurrent$', 'timeout_q': 900, 'timeout_t': 5400, 'env': _ENV},
  ],
  'min_evals': 800,
@@ -38,8 +37,6 @@ CHECK = {
    'systematic.quiescent_checks': 200,
    'systematic.reads_overlapping_a_write': 80,
    'systematic.scenarios_explored_exhaustively_within_bound': 6,
-   'fault.faults_injected': 30,
-   'fault.acknowledged_under_fault': 20,
    'concurrent.quiescent_checks': 200,
    'concurrent.reads_overlapping_a_write': 200,
    'concurrent.free_running_schedules': 20,
